@@ -392,7 +392,7 @@ func randomHistory(rng *Rng, profile string) hist {
 				c = e.contents[rng.Intn(len(e.contents))]
 			}
 			v := rng.Intn(nv)
-			if rng.Chance(1, 15) {
+			if rng.Chance(1, 25) {
 				v = rng.Intn(bNVals)
 			}
 			snd := e.sender
@@ -405,7 +405,7 @@ func randomHistory(rng *Rng, profile string) hist {
 			if rng.Chance(1, 8) {
 				signer = 4
 			}
-			op := []string{"add", "remove", "remove", "flip"}[rng.Intn(4)]
+			op := []string{"add", "add", "add", "remove", "remove", "remove", "remove", "flip"}[rng.Intn(8)]
 			h.add("tx wl %d %s %d", signer, op, rng.Intn(nv))
 		case r < pClaim+pWl+pVal:
 			i := rng.Intn(nv)
